@@ -356,6 +356,9 @@ func (s *Stack) Run(ops [][]string, stat func(string)) (obs []string) {
 		stat("op_" + o[0])
 		switch o[0] {
 		case "put":
+			if len(o[3]) > 0 && o[3][0] == '*' {
+				stat("put_big_value")
+			}
 			fail("put", s.handle(o[1]).Put(Bytes(o[2]), Bytes(o[3])))
 		case "del":
 			fail("del", s.handle(o[1]).Delete(Bytes(o[2])))
@@ -422,6 +425,9 @@ func (s *Stack) Run(ops [][]string, stat func(string)) (obs []string) {
 			if f := s.flus[d]; f != nil {
 				if f.NotFlushedPairs() > 0 {
 					stat("flush_nonempty")
+				}
+				if f.NotFlushedSizeEst() > kvdb.IdealBatchSize {
+					stat("flush_splits_batch")
 				}
 				fail("flush", f.Flush())
 			}
